@@ -207,6 +207,21 @@ def run(res):
             last = [e_ for e_ in case['impl_events'] if e_[0] == 'cmd']
             res.disagree('a command line causes an unhandled error', case['impl_events'], 'output or an error line', repr(e)[:300],
                          sig={'entry': 'command', 'exception': type(e).__name__, 'escape_then_blank': any(c[1].lstrip().startswith('\x1b') for c in last)})
+    # ill-typed title / app-id / namespace arguments in the log, THEN commands that print or look up connection names
+    for odd in ('xdg_toplevel@8.set_title(42)', 'xdg_toplevel@8.set_app_id(7.5)', 'xdg_toplevel@8.set_title(nil)', 'xdg_toplevel@8.set_app_id(fd 3)',
+                'zwlr_layer_shell_v1@9.get_layer_surface(new id zwlr_layer_surface_v1@10, wl_surface@5, nil, 2, fd 12)', 'xdg_toplevel@8.set_title()',
+                'xdg_toplevel@8.set_app_id(array[4])', 'xdg_toplevel@8.set_title(wl_surface@5)'):
+        lines = ['[1.000]  -> wl_display@1.get_registry(new id wl_registry@2)', '[1.100]  -> ' + odd, '[1.200]  -> wl_display@1.sync(new id wl_callback@3)']
+        cmds = ['connection', 'connection a', 'c 42', 'connection 7.5', 'list', 'c all', 'connection']
+        case = dict(config=[None, None, 0, 1, 0], impl_events=[('line', l) for l in lines] + [('eof',)] + [('cmd', c) for c in cmds],
+                    events=[['text', l] for l in lines] + [['eof']] + [['cmd', c] for c in cmds], dialect='old')
+        res.evaluations += 1
+        try:
+            sessioncheck.run_impl(case)
+            res.nontriv(('odd-title', odd))
+        except Exception as e:
+            res.disagree('a command fails with an unhandled error after an ill-typed title / app-id line in the log', case['impl_events'], 'output or an error line',
+                         repr(e)[:300], sig={'entry': 'command-after-odd-line', 'exception': type(e).__name__, 'line': odd})
     for count in (50, 2000):
         res.evaluations += 1
         case = dict(config=[None, None, 0, 1, 0], impl_events=[('cmd', 'w ' * count + 'help'), ('eof',)], events=[['cmd', 'x'], ['eof']], dialect='old')
